@@ -135,9 +135,13 @@ func validationGrids() []fieldGrid {
 		{"thresholds", func(o *controller.NodeGroupOptions, v []any) {
 			o.TaintLowerCapacityThresholdPercent, o.TaintUpperCapacityThresholdPercent, o.ScaleUpThresholdPercent = v[0].(int), v[1].(int), v[2].(int)
 		}, [][]any{th, th, th}},
-		{"rates", func(o *controller.NodeGroupOptions, v []any) { o.SlowNodeRemovalRate, o.FastNodeRemovalRate = v[0].(int), v[1].(int) },
+		{"rates", func(o *controller.NodeGroupOptions, v []any) {
+			o.SlowNodeRemovalRate, o.FastNodeRemovalRate = v[0].(int), v[1].(int)
+		},
 			[][]any{ints(-3, -2, -1, 0, 1, 2, 5), ints(-3, -2, -1, 0, 1, 2, 5)}},
-		{"graces", func(o *controller.NodeGroupOptions, v []any) { o.SoftDeleteGracePeriod, o.HardDeleteGracePeriod = v[0].(string), v[1].(string) },
+		{"graces", func(o *controller.NodeGroupOptions, v []any) {
+			o.SoftDeleteGracePeriod, o.HardDeleteGracePeriod = v[0].(string), v[1].(string)
+		},
 			[][]any{durVals, durVals}},
 		{"cooldown", func(o *controller.NodeGroupOptions, v []any) { o.ScaleUpCoolDownPeriod = v[0].(string) }, [][]any{durVals}},
 		{"minmax", func(o *controller.NodeGroupOptions, v []any) { o.MinNodes, o.MaxNodes = v[0].(int), v[1].(int) },
